@@ -118,9 +118,9 @@ def St.runSet (s : St) (name : String) (dst : Nat) (act : M RS Rp) (draws : List
     if !okd then s.fail s!"{name}: model consumed fewer draws than the implementation"
     else if !(irMatches s.c.codec (parseIR irt) r) then
       s.fail s!"{name}: representation differs; before {src} model {showR s.c.codec r} impl {irt.take 50}"
-    else if capacity r ≤ 40 && len r ≤ 100 && !(wfB s.c r && absB s.c r) then
+    else if capacity r ≤ 160 && len r ≤ 300 && !(wfB s.c r && absB s.c r) then
       s.fail s!"{name}: the representation invariant WF does not hold for {showR s.c.codec r}"
-    else pure ((s.set dst r).bump (if capacity r ≤ 40 && len r ≤ 100 then "wf:checked" else "wf:skipped-large"))
+    else pure ((s.set dst r).bump (if capacity r ≤ 160 && len r ≤ 300 then "wf:checked" else "wf:skipped-large"))
 
 def St.runRet (s : St) (name : String) (dst : Nat) (act : M RS (Rp × Bool)) (ret : String) (draws : List Nat)
     (irt : List String) : IO St := do
@@ -138,9 +138,9 @@ def St.runRet (s : St) (name : String) (dst : Nat) (act : M RS (Rp × Bool)) (re
     else if (ret == "1") != b then s.fail s!"{name}: return value: model {b} impl {ret} on {src}"
     else if !(irMatches s.c.codec (parseIR irt) r) then
       s.fail s!"{name}: representation differs; before {src} model {showR s.c.codec r} impl {irt.take 50}"
-    else if capacity r ≤ 40 && len r ≤ 100 && !(wfB s.c r && absB s.c r) then
+    else if capacity r ≤ 160 && len r ≤ 300 && !(wfB s.c r && absB s.c r) then
       s.fail s!"{name}: the representation invariant WF does not hold for {showR s.c.codec r}"
-    else pure ((s.set dst r).bump (if capacity r ≤ 40 && len r ≤ 100 then "wf:checked" else "wf:skipped-large"))
+    else pure ((s.set dst r).bump (if capacity r ≤ 160 && len r ≤ 300 then "wf:checked" else "wf:skipped-large"))
 
 def cmpList (s : St) (name : String) (model : List Nat) (impl : List Nat) : IO St :=
   if model == impl then pure (s.bump s!"op:{name}")
